@@ -24,8 +24,14 @@ def strategy(tier):
 def run_case(case):
     import_mbi()
     out = Out()
-    out.classes = ['mech:' + case['mech'], 'neighbour:' + case['neighbour']]
-    r = mech.coupled(case)
+    out.classes = ['mech:' + case['mech'], 'neighbour:' + case['neighbour']] + (['weighted_records'] if case.get('weights') else [])
+    if case['mech'] == 'mwem' and case['noise'] == 'gaussian' and case['delta'] == 0:
+        try:
+            r = mech.coupled(case)
+        except AssertionError:        # refused before anything is drawn (see C05)
+            out.classes.append('delta0_gaussian_refused'); return out
+    else:
+        r = mech.coupled(case)
     ev, ev2 = r['events'], r['events2']
     attrs, shape = case['domain']['attrs'], case['domain']['shape']
     nsel = sum(1 for e in ev if e['kind'] == 'choice' and e['size'] is None and e['p'] is not None)
